@@ -4,6 +4,7 @@ import RtcVerif.Proofs.C01Colloc
 import RtcVerif.Proofs.C01Rows
 import RtcVerif.Proofs.C01Inputs
 import RtcVerif.Proofs.C01Own
+import RtcVerif.Proofs.C01Plumb
 import Mathlib.Algebra.Order.Group.Abs
 /-!
 # C01 — transcribed dynamics are exactly the theta-method discretisation of the DAE
@@ -430,6 +431,94 @@ example : decode I1.sys X0 (I1.idx 0) 1 = [8, 2 / 3] := by decide +kernel
 
 example : decodeVar I1.sys X0 (I1.idx 0) 1 1 = 2 / 3 := by
   rw [C01_decode_own_grid I1 X0 0 1 1 ⟨[0, 3], 0⟩ rfl (by simp)]
+  decide +kernel
+
+/-! ## The plumbing at the level of Python lists and NumPy calls
+
+The statements below are about the code-level definitions of `Model/C01Plumb.lean`; on every run
+`harness/translate_c01.py` re-generates those definitions from the source
+(`Gen/CollocPlumbing.lean`) and proves the generated ones equal to the model functions used above. -/
+
+/-- **index lists**: the lists the loop builds from `indices_as_lists[member][variable]` (copy,
+    `extend(place_holder)`, `[:n]`, then `[:-1]` / `[1:]`) are the model's `explicitInds` /
+    `implicitInds` of the index table read off the raw lists — whatever the lengths of the raw
+    lists; and a variable on the collocation grid is read at its own entries -/
+theorem C01_index_lists_code (raw : Nat → List Nat) (k n ph : Nat) :
+    explicitIndsCode raw k n ph = explicitInds (idxOf raw ph) k n
+    ∧ implicitIndsCode raw k n ph = implicitInds (idxOf raw ph) k n
+    ∧ (∀ v i (h : i < (raw v).length), idxOf raw ph v i = (raw v)[i]) :=
+  ⟨explicitIndsCode_eq raw k n ph, implicitIndsCode_eq raw k n ph, fun v i h => idxOf_lt raw ph v i h⟩
+
+/-- **tiling and reshape**: entry `(i, j)` resp. `(i, k + j)` of the column-major reshape to
+    `(n-1) × 2k` of `vertcat(X[explicit], X[implicit]) * np.tile(np.repeat(nominals, n-1), 2)` is
+    `nominal_j · X[index of variable j at collocation time i resp. i+1]`: each variable meets its own
+    nominal and its own stamps, for every number of variables and stamps -/
+theorem C01_state_matrix_code (X : Vec) (raw : Nat → List Nat) (nom : Nat → Rat) (k n ph i j : Nat)
+    (hj : j < k) (hi : i < n - 1) (hlen : (raw j).length = n) :
+    reshapeAt (interpolatedFlatCode X raw nom k n ph) (n - 1) i j
+        = nom j * X ((raw j).getD i 0)
+    ∧ reshapeAt (interpolatedFlatCode X raw nom k n ph) (n - 1) i (k + j)
+        = nom j * X ((raw j).getD (i + 1) 0) := by
+  obtain ⟨h1, h2⟩ := stateMatrixCode_entries X raw nom k n ph i j hj hi
+  have e1 : idxOf raw ph j i = (raw j).getD i 0 := by
+    simp [idxOf, List.getD_eq_getElem?_getD, List.getElem?_eq_getElem (by omega : i < (raw j).length)]
+  have e2 : idxOf raw ph j (i + 1) = (raw j).getD (i + 1) 0 := by
+    simp [idxOf, List.getD_eq_getElem?_getD, List.getElem?_eq_getElem (by omega : i + 1 < (raw j).length)]
+  rw [h1, h2, e1, e2]
+  exact ⟨rfl, rfl⟩
+
+/-- **history block**: the statements of the block (`h.times[0] == t0 or len(h.values) == 1`,
+    negative indices, `except KeyError`) compute the model's `histDer`; with at least two points
+    and a first stamp different from `t0` that is the backward difference of the last two points -/
+theorem C01_history_block_code (h : Option Knots) (t0 : Rat) :
+    histDerCode h t0 = histDer h t0
+    ∧ histDerCode none t0 = 0
+    ∧ (∀ p, histDerCode (some [p]) t0 = 0)
+    ∧ (∀ (pre : Knots) (ta fa tb fb : Rat), firstTime (pre ++ [(ta, fa), (tb, fb)]) ≠ t0 →
+        histDerCode (some (pre ++ [(ta, fa), (tb, fb)])) t0 = (fb - fa) / (tb - ta)) := by
+  refine ⟨histDerCode_eq h t0, rfl, ?_, ?_⟩
+  · intro p
+    simp [histDerCode]
+  · intro pre ta fa tb fb hne
+    rw [histDerCode_eq]
+    have hl : ¬ (pre ++ [(ta, fa), (tb, fb)]).length = 1 := by simp
+    simp only [histDer, hne, hl, or_self, if_false]
+    simp
+
+/-- **`reduce_matvec` on the initial derivatives** (finding F36): the initial derivatives handed to
+    the initial residual are affine in the decision vector; keeping the linear part and the
+    constant part gives exactly the vector `C01_initial_rows` is about -/
+theorem C01_initial_ders_reduced (s : Sys) (c : Mem) (X : Vec) (hnd : s.nd ≤ s.k) :
+    List.zipWith affVal (initDersLin s c X) (initDersConst s c) = initDersCode s c X := by
+  rw [initDers_affine, initDersCode_eq s c X hnd]
+
+/-- non-vacuity: variable 0 on the grid (`n = 3`), variable 1 with two own stamps; place holder 99 -/
+example : explicitIndsCode (fun v => if v = 0 then [3, 4, 5] else [0, 1]) 2 3 99 = [3, 4, 0, 1]
+    ∧ implicitIndsCode (fun v => if v = 0 then [3, 4, 5] else [0, 1]) 2 3 99 = [4, 5, 1, 99] := by
+  decide +kernel
+
+example : repeatedNominalsCode (fun v => if v = 0 then 2 else 1 / 2) 2 3 = [2, 2, 1 / 2, 1 / 2, 2, 2, 1 / 2, 1 / 2] := by
+  decide +kernel
+
+/-- the reshaped matrix of the example instance: row 1 is `(x(t1), u(t1), x(t2), u(t2))` in
+    physical units -/
+example : (List.range 4).map (reshapeAt (interpolatedFlatCode X0 (fun v => if v = 0 then [3, 4, 5] else [0, 1, 2])
+    S0.nom 2 3 99) 2 1) = [10, 1, 12, 3 / 2] := by
+  decide +kernel
+
+example : histDerCode (some [(-2, 3 / 2), (-1, -9 / 2), (0, 7 / 4)]) 0 = 25 / 4
+    ∧ histDerCode (some [(0, 7 / 4)]) 0 = 0 ∧ histDerCode none 0 = 0
+    ∧ histDerCode (some [(0, 1), (1, 5)]) 0 = 0 := by
+  decide +kernel
+
+/-- finding F36 at the level of the initial derivatives: with the history constant `25/4` of an
+    algebraic variable, dropping the constant part (the unrepaired `reduce_matvec`) changes the
+    vector handed to the initial residual -/
+theorem C01_legacy_F36_witness :
+    let c : Mem := { I0.mem 0 with dconst := fun _ => 25 / 4 }
+    List.zipWith affVal (initDersLin S0 c X0) (initDersConst S0 c) = [14, 25 / 4]
+    ∧ List.zipWith affValLegacy (initDersLin S0 c X0) (initDersConst S0 c) = [14, 0]
+    ∧ initDersCode S0 c X0 = [14, 25 / 4] := by
   decide +kernel
 
 end RtcVerif.C01
